@@ -35,15 +35,15 @@ CHECKS = {
    TRUST, "4 C06"),
  "C07": ("exploration", "E6 robust (worker subprocesses)",
    "exhaustive bounded enumeration of input grammars per entry point, executed in isolated worker processes with crash attribution and a watchdog",
-   "Quick: all 813 k strings of length <= 5 over a 15-token structural alphabet and 60 k JSON-form member assignments given to verifier (with / without key-binding expectation) and holder (+ 4 selections, + KB); 2.6 k type substitutions in header / payload / disclosures of valid tokens (signed and unsigned); the C08 space; 3.6 k selector JSONs x 198 full and partial SD-JWTs; 10.7 k issuer inputs (all JSON values <= 3 nodes, alphabets incl. reserved names, chains to depth 64, path catalogue); 84 deep inputs around serde_json's recursion limit on the 8 MB main-thread stack; 540 undecodable non-ASCII disclosure strings in a valid token; 1.1 k validly signed KB-JWTs with every value shape per claim / header member. Thorough: length <= 7, selectors <= 4 nodes, C08 pairs. Oracle: no panic (catch_unwind), worker alive, watchdog silent. A 100 k / 1 M random-string sweep is auxiliary sampling.",
+   "Quick: all 813 k strings of length <= 5 over a 15-token structural alphabet and 60 k JSON-form member assignments given to verifier (with / without key-binding expectation) and holder (+ 4 selections, + KB); 2.6 k type substitutions in header / payload / disclosures of valid tokens (signed and unsigned); the C08 space; 3.6 k selector JSONs x 198 full and partial SD-JWTs; 10.7 k issuer inputs (all JSON values <= 3 nodes, alphabets incl. reserved names, chains to depth 64, path catalogue); deep inputs around and far beyond serde_json's recursion limit; 540 undecodable non-ASCII disclosure strings in a valid token; 1.1 k validly signed KB-JWTs with every value shape per claim / header member. Thorough: length <= 7, selectors <= 4 nodes, C08 pairs. Oracle: no panic (catch_unwind), worker alive, watchdog silent. A 100 k / 1 M random-string sweep is auxiliary sampling.",
    "'any byte string' is replaced by complete enumeration of structural grammars; non-termination is detected by a watchdog, not proved absent", "4 C07"),
  "C08": ("fault_enumeration", "E3 signed-structure enumeration",
    "exhaustive fault enumeration over a deviation catalogue applied to well-formed signed structures; the real verifier is compared with an independent transcription of the specification's algorithm",
-   "8 well-formed bases x every single deviation and every pair (quick), plus every triple on 2 bases / of the structural core on 6 (thorough), x 2 formats, signed by the harness with the test key: _sd list shape, placeholder shape, _sd_alg top / nested, disclosure decoded form of length 0..5 with every type at the name slot, reserved / colliding names (incl. _sd_alg at the top level), wrong container kind, duplicates, unreferenced. Model Reject => Err required; model Claims / May => Ok must carry exactly the model's claims; Panic never; after every deviation the well-formed base still verifies.",
+   "Well-formed bases x every single deviation and every pair (quick), plus every triple (thorough), x 2 formats, signed by the harness with the test key: _sd list shape, placeholder shape, _sd_alg top / nested, disclosure decoded form of length 0..5 with every type at the name slot, reserved / colliding names (incl. _sd_alg at the top level), wrong container kind, duplicates, unreferenced. Model Reject => Err required; model Claims / May => Ok must carry exactly the model's claims; Panic never; after every deviation the well-formed base still verifies.",
    "spec_verify is the harness's transcription of draft-07 section 8.1 step 3", "4 C08, 10.4"),
  "C09": ("exploration", "E2 grid",
    "exhaustive grid enumeration of exp x nbf x format x key binding x algorithm x construction path against the real verifier",
-   "Full product of 2 credentials x 2 formats x kb off / on x algs x 22 exp values x 9 nbf values, each built through the real issuer + holder and also signed directly by the harness; must-reject points give Err, in-window points Ok; every presentation is verified twice and once in the other serialization, the verdict must not change.",
+   "Full product of 2 credentials x 2 formats x kb off / on x algs x exp values x nbf values, each built through the real issuer + holder and also signed directly by the harness; must-reject points give Err, in-window points Ok; every presentation is verified twice and once in the other serialization, the verdict must not change.",
    "wall clock not virtualised; no assertion within 300 s of a boundary", "4 C09"),
  "C10": ("exploration", "relational transcoding over the E1 / E2 / E3 spaces",
    "exhaustive bounded enumeration of (JWT, disclosure list, KB-JWT) triples from the honest, tampered, adversarial-list, key-binding-attack and ill-formed spaces, each verified in compact and 2-4 JSON renderings with identical arguments",
@@ -76,7 +76,32 @@ CHECKS = {
 }
 
 
+# Scopes added after the first build (seed rounds 2..9). The complete, generated list with current figures is DESIGN.md 10.7.
+ADDED = {
+ "C01": "Added since: name-relation families (case / normalisation twins; names that spell another node's path), path-spelling collisions, equal siblings, related-value pairs (integer / float / string spellings, literals, empty containers), count sweep 0..40 and around 64 / 128 / 256, length sweep around 256 / 1 K / 4 K / 16 K, cnf as a user claim, iat value shapes, 16 issuer-identifier shapes, a holder key with a leading-zero coordinate, the holder's key as a user claim under confirmation-like names; every holder-made KB-JWT and every issuer-signed JWT is also checked as a JWS without the library.",
+ "C02": "Added since: shared-kid confusion; the resolver must be shown exactly the token's header and asked for exactly its iss, over 12 related (iss, kid) pairs (DID URLs, key URLs below / beside the issuer's, mixed case, prefix twins); signature re-encodings (ASN.1 DER, extra zero octet, hex, padded base64, doubled).",
+ "C03": "Added since: an absent genuine disclosure in the key-binding slot (JSON: also followed by '~'; two joined by '~' as one element); credentials with hidden values of 1100..3000 characters.",
+ "C04": "Added since: 10 expectations (3 with the empty string); nonce / aud of every 'empty-like' shape; attacker keys embedded in the KB header; re-encoded KB signatures; a 40 x 40 aud / nonce alphabet with full cross product; the keyless credential carries the holder's key as sub_jwk / jwk and is offered KB-JWTs that would be right if that confirmed it; thorough adds a world with a leading-zero-coordinate holder key.",
+ "C05": "Added since: 47 malformed / dangling paths incl. library-owned names ($.cnf, $._sd_alg, ...); path-list permutations / duplicates / all notations; ASCII punctuation and the empty string as names under Custom; names beginning like iss / iat / exp or ending like a reserved key; equal siblings; related-value pairs; count sweep; 16 issuer-identifier shapes; iat value shapes; leading-zero-coordinate holder key; confirmation-like user claims; independent JWS check of the issuer-signed JWT. Thorough: S(6,4).",
+ "C06": "Added since: over-long selections padded with nested selections; 36 credentials laid out by another implementation (number spellings that do not survive re-serialization, pretty-printed / reordered / escaped payloads): byte-identical JWT, spec-conforming verified claims; every holder-made KB-JWT checked without the library (JWS under the holder key, typ, nonce, aud, numeric iat, sd_hash over the presented sequence).",
+ "C07": "Added since: single-key selections; alignment strings (a multi-byte character at every byte offset 0..16) in every header / claim / KB field; disclosures, payloads, headers and envelope members nested 129..3000 levels built as text, each run on a 2 MiB thread; caller-supplied cnf of every JSON type with and without a holder key; API argument combinations; a 20 s per-case limit when a block is replayed.",
+ "C08": "Now 12 bases (incl. zero / one disclosure, null and empty siblings, a clear cnf with a hidden member); added deviations: respelled digests, strings of non-digest shape once / twice / across kinds, twin disclosures (same name and value as a visible or hidden sibling), keys written with \\u escapes, no disclosure presented at all. Thorough: every triple.",
+ "C09": "Now 28 exp x 14 nbf values (negative and fractional instants included); a resolution sweep (quick: every minute of an hour and every day of a month on both sides; thorough: every second of an hour, every hour of two days, every day of 400, every year of 50); harness-signed KB-JWTs with back-dated / absent / future iat on every must-reject point.",
+ "C10": "Added since: renderings with every string \\u-escaped and pretty-printed with surrounding whitespace (verification and holders built from them); a header member carrying foreign disclosures; every JWT segment padded / in the standard alphabet / percent-encoded / with blanks; holder construction compared across formats.",
+ "C11": "Now 13 issuer operations (a format-only twin) and 16 holder operations (EdDSA asked of an EC key, failure after selecting, nonce + aud without key, a name that exists one level down, re-split (nonce, aud) pairs); a credential nested 6 levels; protected header compared with a fresh instance. Thorough: issuer length 6, holder length 5, cores of 5 operations to length 9.",
+ "C12": "Added since: equal siblings; count sweep; per-population order rule; strict decoding of every digest (canonical base64url of 32 bytes). Thorough: S(6,4).",
+ "C13": "Now 27 look-alike names (incl. names whose serialized form ends like a reserved key, case variants). Thorough: S(6,4).",
+ "C14": "Added since: burst configurations; path-spelling names; histories alternating compact / JSON; every base64url character must occur at every position of the salt text (auxiliary).",
+ "C15": "Added since: decoys on; holders built from presentations whose array elements were withheld, with false / null at those positions.",
+ "C16": "Added since: queues mixing spec-style, short, long and non-base64url salts; a constant and an alternating queue (round trip asserted whenever the disclosure texts differ); related-value pairs; same-instance issuance.",
+}
+
+
 def main():
+    for k, add in ADDED.items():
+        c = list(CHECKS[k])
+        c[3] = c[3] + " " + add
+        CHECKS[k] = tuple(c)
     props = [json.loads(l) for l in open('/verif/properties.jsonl')]
     checks, na = [], []
     for p in props:
